@@ -129,6 +129,13 @@ class GrowthRule(sym.Rule):
         if ev.kind in ('call', 'throw') and ev.callee:
             k = self.orc.kind.get(ev.callee)
             if k == 'ALLOC' and ev.kind == 'call' and ev.args and len(ev.args) >= 2:
+                if self.mode == 'grow' and getattr(st, 'visits', None) and not self.single_pass:
+                    # an allocation in a second or later iteration of a loop: the contents can be
+                    # moved to a new buffer once per iteration
+                    self._rep('R10.4', False, f, 'allocation inside a loop',
+                              'an allocation is reachable in a repeated iteration of a loop although the element count is '
+                              'known up front (multi-pass range): the contents may be relocated more than once',
+                              {'at': where(ev, self.orc)})
                 return (rs[0] | {(ev.ret, ev.args[1])}, rs[1] + 1, rs[2], True)
             if k == 'DEALLOC' and ev.kind == 'call':
                 return (rs[0], rs[1], rs[2], True)
@@ -183,6 +190,10 @@ class GrowthRule(sym.Rule):
         Cf = eng.load(st, ca)
         Sf = eng.load(st, sa)
         Pf = eng.load(st, pa) if pa is not None else None
+        # R10.4 does not need closed terms for the words: count the allocations on the path
+        if nalloc > 1 and not self.single_pass:
+            self._rep('R10.4', False, f, 'more than one allocation on a path',
+                      'a path allocates %d times although the element count is known up front (multi-pass range)' % nalloc)
         if versioned(Cf) or versioned(Sf) or (Pf is not None and versioned(Pf)):
             self.unjudged += 1
             return
@@ -199,10 +210,7 @@ class GrowthRule(sym.Rule):
             a = single_atom(pos)
             if a is not None and a in eqrets:
                 exempt = True
-        if nalloc > 1 and not self.single_pass:
-            self._rep('R10.4', False, f, 'more than one allocation on a path',
-                      'a path allocates %d times although the element count is known up front' % nalloc)
-        elif nalloc:
+        if nalloc == 1:
             self._rep('R10.4', True, f, 'one', sample={'allocations_on_path': nalloc})
         if realloc:
             if Sf == size0:
